@@ -8,11 +8,11 @@
 (*  [ev |-> "proc", run, id, tnow, adsb, commb, post, exc, dup]               *)
 (*     message: [f |-> frame bytes, t |-> half seconds, g |-> 1 if genuine position squitter, a, o |-> truth]  *)
 (*     post entry: [addr, live, hp, tpos, posA, posS, r, s, e, o, cb]         *)
-EXTENDS Tracker, TV_CPR, ADSB, Json, IOUtils
+EXTENDS Tracker, TV_CPR, TV_ADSB, TV_CommB, Json, IOUtils
 
 Events == ndJsonDeserialize(IOEnv.TRACE_FILE)
 
-VARIABLES l, tab, heard, seen, rx
+VARIABLES l, tab, heard, seen, rx, cont
 
 ClsOf(f) ==
   LET tc == TypeCode(f) IN
@@ -85,7 +85,89 @@ EncoderOK(e) == \A i \in 1..Len(e.adsb) :
       LET f == e.adsb[i].f  en == Encode(IF ClsOf(f) = "surf" THEN "surf" ELSE "air", e.adsb[i].a, e.adsb[i].o, OE(f))
       IN  en.yz = YZ(f) /\ en.xz = XZ(f)
 
-Init == l = 1 /\ tab = <<>> /\ heard = <<>> /\ seen = {} /\ rx = <<FALSE, 0, 0>> /\ TLCSet(1, 0)
+(* ------------------------------------------------------------------------------------------------------------ *)
+(* The rest of the table (beyond what C17 states): callsign, speed / track / vertical rate, altitude and the       *)
+(* Comm-B values are modelled too, so that a change to how process_raw fills them shows up as MODEL-DRIFT.          *)
+(* An expectation is [k |-> "keep"] (unchanged: equal to what was recorded after the previous call),               *)
+(* [k |-> "none"], [k |-> "str", v], [k |-> "q", n, d] (rational), [k |-> "ang", n] (n/128 deg),                  *)
+(* [k |-> "trk", we, sn] (track of a velocity vector), [k |-> "any"] (not decidable by the model).                *)
+(* ------------------------------------------------------------------------------------------------------------ *)
+Fields == {"call", "gs", "trk", "roc", "alt", "tas", "roll", "rtrk", "trk50", "gs50", "ias", "hdg", "mach", "rb", "ri"}
+AllOf(x) == [f \in Fields |-> x]
+Qx(q) == [k |-> "q", n |-> q[1], d |-> q[2]]
+QorNone(v) == IF v = NA THEN [k |-> "none"] ELSE [k |-> "q", n |-> v, d |-> 1]
+
+\* effect of one ADS-B message on the expectations of its aircraft; posSet: the model stored a position for it
+AdsbContent(ex, f, posSet) ==
+  LET tc == TypeCode(f)
+      e1 == IF tc >= 1 /\ tc <= 4 THEN [ex EXCEPT !.call = [k |-> "str", v |-> CallsignText(f)]] ELSE ex
+      e2 == IF tc >= 5 /\ tc <= 8 THEN
+               (IF MovementEighths(SurfMov(f)) = NA \/ SurfTrkStatus(f) = 0 THEN e1
+                ELSE [e1 EXCEPT !.gs = [k |-> "q", n |-> MovementEighths(SurfMov(f)), d |-> 8],
+                                !.trk = [k |-> "ang", n |-> 360 * SurfTrk(f)], !.roc = [k |-> "q", n |-> 0, d |-> 1]])
+            ELSE IF tc = 19 /\ Subtype19(f) \in {1, 2} /\ VelV1(f) # 0 /\ VelV2(f) # 0 THEN
+               [e1 EXCEPT !.gs = [k |-> "q", n |-> GroundSpeed(f), d |-> 1], !.trk = [k |-> "trk", we |-> Vwe(f), sn |-> Vsn(f)],
+                          !.roc = QorNone(VertRate(f))]
+            ELSE e1
+      e3 == IF posSet THEN
+               [e2 EXCEPT !.alt = IF tc >= 5 /\ tc <= 8 THEN [k |-> "q", n |-> 0, d |-> 1]
+                                  ELSE LET d == DecodeAC12(MEField(f, 9, 20)) IN IF d = NoAlt THEN [k |-> "none"] ELSE [k |-> "q", n |-> d, d |-> 1]]
+            ELSE e2
+  IN  e3
+
+\* a value is stored only when it is "truthy" (not None and not zero)
+SetIfTruthy(ex, fld, q) == IF q = NAq \/ q[1] = 0 THEN ex ELSE [ex EXCEPT ![fld] = Qx(q)]
+CommBContent(ex, f) ==
+  LET aero == IF Is60Format(f) THEN Is60Aero(f) ELSE "fail" IN
+  IF MBZero(f) THEN ex
+  ELSE IF aero = "open" THEN [fl \in Fields |-> IF fl \in {"tas", "roll", "rtrk", "trk50", "gs50", "ias", "hdg", "mach", "rb", "ri"} THEN [k |-> "any"] ELSE ex[fl]]
+  ELSE LET c == Candidates(f, FALSE, aero = "pass") IN
+       IF c = <<"BDS50">> THEN
+            SetIfTruthy(SetIfTruthy(SetIfTruthy(SetIfTruthy(SetIfTruthy(ex, "tas", Tas50(f)), "roll", Roll50(f)), "rtrk", Rtrk50(f)),
+                                    "trk50", Trk50(f)), "gs50", Gs50(f))
+       ELSE IF c = <<"BDS60">> THEN
+            SetIfTruthy(SetIfTruthy(SetIfTruthy(SetIfTruthy(SetIfTruthy(ex, "ias", Ias60(f)), "hdg", Hdg60(f)), "mach", Mach60(f)),
+                                    "rb", Vr60baro(f)), "ri", Vr60ins(f))
+       ELSE ex
+
+\* expectations for every aircraft after the call: fold ADS-B then Comm-B, tracking the model table for "posSet"
+ContentAfter(e, aa, cc) ==
+  LET RECURSIVE A(_, _, _)
+      A(k, tb, ex) ==
+        IF k > Len(aa) THEN <<tb, ex>>
+        ELSE LET m == aa[k]
+                 ntb == ApplyAdsb(tb, m, rx)
+                 ex0 == IF m.addr \in DOMAIN ex THEN ex[m.addr] ELSE AllOf([k |-> "none"])
+                 posSet == m.cls \in {"air", "surf"} /\ ~m.skip /\ ntb[m.addr].hasPos /\ ntb[m.addr].tpos = m.t /\ ntb[m.addr].pk # ""
+                 nex == (m.addr :> AdsbContent(ex0, e.adsb[k].f, posSet)) @@ ex
+             IN  A(k + 1, ntb, nex)
+      RECURSIVE C(_, _)
+      C(k, ex) ==
+        IF k > Len(cc) THEN ex
+        ELSE LET m == cc[k] IN
+             IF m.addr \in DOMAIN ex THEN C(k + 1, (m.addr :> CommBContent(ex[m.addr], e.commb[k].f)) @@ ex) ELSE C(k + 1, ex)
+      start == [a \in DOMAIN tab |-> AllOf([k |-> "keep"])]
+      r == A(1, tab, start)
+  IN  C(1, r[2])
+
+FieldOK(x, rec, prev) ==
+  CASE x.k = "keep" -> rec = prev
+    [] x.k = "none" -> IsNone(rec)
+    [] x.k = "str" -> IsStr(rec, x.v)
+    [] x.k = "q" -> NumEq(rec, x.n, x.d)
+    [] x.k = "ang" -> AngEq(rec, x.n)
+    [] x.k = "trk" -> TrackOK(rec, x.we, x.sn)
+    [] OTHER -> TRUE
+
+ContentDiff(e, aa, cc) ==      \* "" when everything agrees, else the name of a field that differs
+  LET ex == ContentAfter(e, aa, cc)
+      bad == {<<k, fl>> \in (1..Len(e.post)) \X Fields :
+                LET p == e.post[k] IN
+                p.addr \in DOMAIN ex /\ ~FieldOK(ex[p.addr][fl], p.c[fl], IF p.addr \in DOMAIN cont THEN cont[p.addr][fl] ELSE [t |-> "n"])}
+  IN  IF bad = {} THEN "" ELSE (CHOOSE b \in bad : TRUE)[2]
+ContOf(post) == [a \in {post[k].addr : k \in 1..Len(post)} |-> post[CHOOSE k \in 1..Len(post) : post[k].addr = a].c]
+
+Init == l = 1 /\ tab = <<>> /\ heard = <<>> /\ seen = {} /\ rx = <<FALSE, 0, 0>> /\ cont = <<>> /\ TLCSet(1, 0)
 
 Reject(e, why) == PrintT(<<"REJECT", e.id, why>>) /\ TLCSet(1, TLCGet(1) + 1)
 
@@ -94,7 +176,7 @@ Next ==
   /\ l' = l + 1
   /\ LET e == Events[l] IN
      IF e.ev = "start" THEN
-          /\ tab' = <<>> /\ heard' = <<>> /\ seen' = {} /\ rx' = <<e.rx[1] = 1, e.rx[2], e.rx[3]>>
+          /\ tab' = <<>> /\ heard' = <<>> /\ seen' = {} /\ rx' = <<e.rx[1] = 1, e.rx[2], e.rx[3]>> /\ cont' = <<>>
      ELSE LET aa == [k \in 1..Len(e.adsb) |-> AbsAdsb(e.adsb[k])]
               cc == [k \in 1..Len(e.commb) |-> AbsCommB(e.commb[k])]
               h == HeardNext(e, aa, cc)
@@ -107,9 +189,11 @@ Next ==
                 ELSE IF ~AccurateOK(e) THEN "stored_position_off_by_more_than_0.001_deg"
                 ELSE IF ~ModelAgrees(Process(tab, aa, cc, e.tnow, rx), e.post)
                      THEN "drift:table_differs_from_model_" \o DriftKind(Process(tab, aa, cc, e.tnow, rx), e.post)
+                ELSE IF ContentDiff(e, aa, cc) # "" THEN "drift:table_content_differs_from_model_" \o ContentDiff(e, aa, cc)
                 ELSE "ok"
           IN  /\ (IF verdict = "ok" THEN TRUE ELSE Reject(e, verdict))
               /\ tab' = TableOf(e.post) /\ heard' = h /\ seen' = sn /\ rx' = rx
+              /\ cont' = IF e.exc = 1 THEN cont ELSE ContOf(e.post)
 
 Done == PrintT(<<"DONE", Len(Events), TLCGet("stats").diameter, TLCGet(1)>>)
 =============================================================================
